@@ -100,6 +100,11 @@ func (m *Module) OnTx(w *engine.World, tx *engine.TxRecord) {
 // the reason); that it left no trace is checked by the engine's bank mirror and by OnCommit.
 func (m *Module) rejected(w *engine.World, tx *engine.TxRecord, op *engine.Op, single bool) {
 	sender := w.A(op.Actor).Addr.String()
+	if op.Kind == "issue" {
+		m.noteGhost(w, tx, op)
+	} else {
+		m.ghostAttempt(w, op)
+	}
 	switch op.Kind {
 	case "to_erc20", "from_erc20":
 		var denom string
@@ -389,6 +394,18 @@ func (m *Module) onIssue(w *engine.World, tx *engine.TxRecord, op *engine.Op, sh
 	}
 	m.addTok(t)
 	w.Hit("token.issued")
+	for _, g := range m.ghosts {
+		if g.Symbol == a.Symbol && g.MinUnit != a.MinUnit {
+			w.Hit("token.ghost_reissued_other_minunit")
+			break
+		}
+	}
+	for _, g := range m.ghosts {
+		if g.MinUnit == a.MinUnit && g.Symbol != a.Symbol {
+			w.Hit("token.ghost_reissued_other_symbol")
+			break
+		}
+	}
 	minted := mul(new(big.Int).SetUint64(u64Of(a.Initial)), pow10(a.Scale))
 	if u64Of(a.Initial) == maxInit {
 		w.Hit("token.issue_initial_at_limit")
@@ -419,7 +436,7 @@ func (m *Module) onMint(w *engine.World, tx *engine.TxRecord, op *engine.Op, sh 
 	owner := w.A(op.Actor).Addr.String()
 	t := m.byMin[a.Denom]
 	if t == nil {
-		w.Violate("C09", "mint/unknown-token", "mint of %s accepted although the harness never saw a token with that min unit", a.Denom)
+		m.ghostAccepted(w, "mint", "min unit", a.Denom, owner)
 		return
 	}
 	w.Hit("C09.authority_checks")
@@ -465,7 +482,12 @@ func (m *Module) onBurn(w *engine.World, tx *engine.TxRecord, op *engine.Op, sh 
 	amt := bigOf(a.Amount)
 	t := m.byMin[a.Denom]
 	if t == nil {
-		w.Violate("C09", "burn/unknown-token", "burn of %s accepted although the harness never saw a token with that min unit", a.Denom)
+		m.ghostAccepted(w, "burn", "min unit", a.Denom, sender)
+		// the burn happened: keep the tally model in step so that only the identity key speaks
+		if m.burnt[a.Denom] == nil {
+			m.burnt[a.Denom] = new(big.Int)
+		}
+		m.burnt[a.Denom].Add(m.burnt[a.Denom], amt)
 		return
 	}
 	if m.burnt[a.Denom] == nil {
@@ -495,7 +517,7 @@ func (m *Module) onEdit(w *engine.World, tx *engine.TxRecord, op *engine.Op, sh 
 	sender := w.A(op.Actor).Addr.String()
 	t := m.toks[a.Symbol]
 	if t == nil {
-		w.Violate("C09", "edit/unknown-token", "edit of %s accepted although the harness never saw that symbol issued", a.Symbol)
+		m.ghostAccepted(w, "edit", "symbol", a.Symbol, sender)
 		return
 	}
 	w.Hit("C09.authority_checks")
@@ -546,7 +568,7 @@ func (m *Module) onTransfer(w *engine.World, tx *engine.TxRecord, op *engine.Op,
 	sender := w.A(op.Actor).Addr.String()
 	t := m.toks[a.Symbol]
 	if t == nil {
-		w.Violate("C09", "transfer/unknown-token", "ownership transfer of %s accepted although the harness never saw that symbol issued", a.Symbol)
+		m.ghostAccepted(w, "transfer", "symbol", a.Symbol, sender)
 		return
 	}
 	w.Hit("C09.authority_checks")
@@ -633,6 +655,9 @@ func (m *Module) onToERC20(w *engine.World, tx *engine.TxRecord, op *engine.Op, 
 	sender := w.A(op.Actor).Addr.String()
 	amt := bigOf(a.Amount)
 	t := m.byMin[a.Denom]
+	if t == nil {
+		m.ghostAccepted(w, "to_erc20", "min unit", a.Denom, sender)
+	}
 	if t == nil || t.Contract == "" {
 		w.Violate("C10", "conversion/unbound-accepted", "conversion of %s%s to ERC20 accepted although the harness saw no contract bound to it", a.Amount, a.Denom)
 		return
@@ -664,6 +689,9 @@ func (m *Module) onFromERC20(w *engine.World, tx *engine.TxRecord, op *engine.Op
 	op.Decode(&a)
 	amt := bigOf(a.Amount)
 	t := m.byMin[a.Denom]
+	if t == nil {
+		m.ghostAccepted(w, "from_erc20", "min unit", a.Denom, w.A(op.Actor).Addr.String())
+	}
 	if t == nil || t.Contract == "" {
 		w.Violate("C10", "conversion/unbound-accepted", "conversion of %s%s from ERC20 accepted although the harness saw no contract bound to it", a.Amount, a.Denom)
 		return
@@ -700,6 +728,9 @@ func (m *Module) onFeeSwap(w *engine.World, tx *engine.TxRecord, i int, op *engi
 	op.Decode(&a)
 	sender := w.A(op.Actor).Addr.String()
 	offered := bigOf(a.Amount)
+	if m.byMin[a.Denom] == nil {
+		m.ghostAccepted(w, "feeswap", "min unit", a.Denom, sender)
+	}
 	p, ok := m.pairs[a.Denom]
 	if !ok {
 		w.Violate("C10", "fee-swap/unregistered-accepted", "fee-token swap of %s accepted although no pair is configured for it", a.Denom)
@@ -816,6 +847,7 @@ func (m *Module) OnCommit(w *engine.World) {
 	}
 	m.checkRegistry(w, ctx)
 	m.checkBurnTally(w, ctx)
+	m.checkGhostSupply(w)
 	m.checkEVM(w, ctx)
 	for _, t := range m.sortedToks() {
 		if t.Genesis && t.MinUnit == stake {
